@@ -73,7 +73,7 @@ CLAIMED.update({
    note=TB + "partial: 'only after' is proved, 'promptly' is not decidable by contracts; release protocol as for C01.",
    technique=GH2),
  "C14": dict(category="proof",
-   text="Fair/FairDivider: for every distinct list, dividend and pre-filled map (sum + dividend < 2^64): msum' == msum + dividend; entry j gets exactly dividend div n + [j < dividend mod n]; every key outside the list unchanged. Rate/RateDivider: conservation and frame on all three exits, and - with float64 operations uninterpreted but monotone (assumed axioms) - increments non-increasing along a strictly descending list. v1 and v2 are proved against the same post-conditions over the same uninterpreted float term, so equal inputs give equal maps. NOT decided: 'each Rate increment within n/2 of the exact proportional share' is a floating-point rounding bound (no solver here decides it, see DESIGN.md).",
+   text="Fair/FairDivider: for every distinct list, dividend and pre-filled map (sum + dividend < 2^64): msum' == msum + dividend; entry j gets exactly dividend div n + [j < dividend mod n]; every key outside the list unchanged. Rate/RateDivider: conservation and frame on all three exits, and - with float64 operations uninterpreted but monotone (assumed axioms) - increments non-increasing along a strictly descending list; and a functional post-condition over the spec term part(j) = uint(round(dividend/sum * P[j])): every priority after the first gets exactly part(j), or less than part(j) with nothing for the priorities after it (truncation); the first gets at least part(0) unless everything after it gets nothing; the first gets more than part(0) (the leftover) only if nobody was truncated. With conservation these clauses determine the result map, and v1 RateDivider and v2 Rate are proved against the same clauses over the same uninterpreted float term, so equal inputs give equal maps (same for Fair/FairDivider, whose post-condition is an explicit integer formula). NOT decided: 'each Rate increment within n/2 of the exact proportional share' is a floating-point rounding bound (no solver here decides it, see DESIGN.md).",
    design_ref="DESIGN.md §7 C14",
    note=TB + "float64 uninterpreted with monotonicity axioms for u2f/fmul/fround/f2u (specs/externals.spec); SumPriorities' accumulation assumed not to wrap.",
    technique="contract-based deductive verification: loop invariants over map sums and quantified per-entry facts; nonlinear integer arithmetic; z3/cvc5"),
